@@ -648,14 +648,17 @@ fn collect_outputs(
 
 pub fn rows1(f: SigNode, mut xs: Value, depth: usize, inv: bool, env: &mut Uiua) -> UiuaResult {
     if !inv {
+        // Rows of a scalar are the scalar itself, so the depth ends at the rank
         if let Some((f, mut d)) = f_mon_fast_fn(&f.node, env) {
             d += depth;
-            let val = f(xs, d + 1, env)?;
+            let d = (d + 1).min(xs.rank());
+            let val = f(xs, d, env)?;
             env.push(val);
             return Ok(());
         } else if let Some((f, mut d)) = f_mon2_fast_fn(&f.node, env) {
             d += depth;
-            let (xs, ys) = f(xs, d + 1, env)?;
+            let d = (d + 1).min(xs.rank());
+            let (xs, ys) = f(xs, d, env)?;
             env.push(ys);
             env.push(xs);
             return Ok(());
